@@ -16,7 +16,8 @@ EXPLANATION = (
     "same order by serialize_tagged and deserialize_tagged and the length written is the payload's length; "
     "(e) tagged rows of one struct have pairwise distinct tags; (f) no narrowing cast on the encode path alters a "
     "value derived from the input unless a dominating guard proves it fits (values the wire format cannot carry are "
-    "tabled exceptions).")
+    "tabled exceptions). " 
+    "(g) for every length-prefix style the writer's and the reader's forms agree (switch points, markers, byte order, digit count, offsets - the C16-b/d/e/f clauses, included here because a body whose length falls where they disagree cannot round-trip).")
 RULE = ("C01-a sibling agreement of extracted encoder/decoder layout tables; C01-b derives-from(param) for "
         "every used Encoding::encode and every serialize_tagged impl; C01-c inverse-primitive table; C01-d frame "
         "order by def-use of the append chain and dominance of TE::decode < L::deserialize < E::decode; "
@@ -103,7 +104,7 @@ def derives_from_param(body, param=1):
     return any(s[0] == "arg" and s[1] == param for s in srcs), srcs
 
 
-def run(ctx, chk):
+def _run_own(ctx, chk):
     zvt = ctx.crate("zvt")
     zb = ctx.crate("zvt_builder")
     structs, tables, used = used_encodings(zvt, chk)
@@ -402,3 +403,14 @@ def frame_order_deser(chk, b, inst):
     if tagd:
         chk.require(not _reaches(b, l_bb, tagd[0][0]), "C01-d/read-order-tag", inst,
                     "the tag is read after the length prefix", "TE::decode before L::deserialize", b.sp())
+
+
+def run(ctx, chk):
+    _run_own(ctx, chk)
+    # (g) a value survives only if writer and reader of its length prefix agree on every form: include the
+    # writer/reader agreement clauses of C16 as necessary conditions of the round trip
+    import rules_c16
+    from report import Sub
+    sub = Sub(chk, "C01-g", lambda r: r.startswith(("C16-b/", "C16-d/", "C16-e/", "C16-f/")))
+    rules_c16.run(ctx, sub)
+    chk.floor("length-style agreement obligations (shared with C16)", sub.count, 35)
